@@ -88,7 +88,10 @@ Theorem parse_handshake_pex : forall fx ms x pend sp h x' pend' sp' bad,
 Proof. exact ProofsD.parse_handshake_pex. Qed.
 Print Assumptions parse_handshake_pex.
 
-(* pex_exact: in every reachable state (any variant of the model, any op list), a peer-exchange
+(* The order SocketAddressCompact_less puts on the entries is a POLICY (fx_ord_addr / fx_ord_port, probed on the
+   compiled code at run time): every PEX theorem below holds for every policy; "same entry" means equal
+   comparison keys (for the two policies in use: equal address and equal 16-bit port, i.e. the same 6 wire bytes).
+   pex_exact: in every reachable state (any variant of the model, any op list), a peer-exchange
    round over at most 200 listed peers yields m_ut_pex_list, a delta 'added' and an initial 'added'
    (also when the initial buffer is NOT regenerated because nothing was added or removed) whose
    every entry has the wire bytes of a currently connected peer with a non-zero listen port;
@@ -96,23 +99,23 @@ Print Assumptions parse_handshake_pex.
    is covered by exact correspondence on unit-level rounds, not by this theorem. *)
 Theorem pex_exact : forall fx priv m minp ops d1,
   let d := final_state fx (start fx priv m minp) ops in
-  do_peer_exchange d = DpeOk d1 ->
-  N.of_nat (length (sort_entries (current_entries (d_conns d)))) <= Params.c20_max_pex_list ->
-  (forall e, In e (d_list d1) -> connected_with_port d e) /\
-  (forall a r e, d_delta d1 = Some (a, r) -> In e a -> connected_with_port d e) /\
-  (forall a r e, d_initial d1 = Some (a, r) -> In e a -> connected_with_port d e).
+  do_peer_exchange fx d = DpeOk d1 ->
+  N.of_nat (length (sort_entries fx (current_entries (d_conns d)))) <= Params.c20_max_pex_list ->
+  (forall e, In e (d_list d1) -> connected_with_port fx d e) /\
+  (forall a r e, d_delta d1 = Some (a, r) -> In e a -> connected_with_port fx d e) /\
+  (forall a r e, d_initial d1 = Some (a, r) -> In e a -> connected_with_port fx d e).
 Proof. exact ProofsG.pex_exact. Qed.
 Print Assumptions pex_exact.
 
 (* the invariant behind it: the initial buffer lists only entries of m_ut_pex_list *)
 Theorem pex_invariant_reachable : forall fx priv m minp ops,
-  initial_in_list (final_state fx (start fx priv m minp) ops).
+  initial_in_list fx (final_state fx (start fx priv m minp) ops).
 Proof. exact ProofsG.pex_invariant_reachable. Qed.
 Print Assumptions pex_invariant_reachable.
 
 (* std::set_difference leaving nothing of a means every element of a is matched in b *)
-Theorem set_diff_nil_cover : forall a b, set_diff a b = [] ->
-  forall e, In e a -> exists e', In e' b /\ same_entry e e'.
+Theorem set_diff_nil_cover : forall fx a b, set_diff fx a b = [] ->
+  forall e, In e a -> exists e', In e' b /\ same_entry fx e e'.
 Proof. exact ProofsG.set_diff_nil_cover. Qed.
 Print Assumptions set_diff_nil_cover.
 
@@ -181,8 +184,8 @@ Print Assumptions fetch_completes_only_verified.
 
 (* std::set_difference on sorted ranges: what it keeps from a strictly ascending range has no
    counterpart (same wire bytes) in the other ascending range *)
-Theorem set_diff_sound : forall a b, asc_strict a -> asc b ->
-  forall e, In e (set_diff a b) -> forall e', In e' b -> ~ same_entry e e'.
+Theorem set_diff_sound : forall fx a b, asc_strict fx a -> asc fx b ->
+  forall e, In e (set_diff fx a b) -> forall e', In e' b -> ~ same_entry fx e e'.
 Proof. exact ProofsH.set_diff_sound. Qed.
 Print Assumptions set_diff_sound.
 
@@ -192,18 +195,18 @@ Print Assumptions set_diff_sound.
    and no two connections of one peer. Every dropped entry was listed and has the wire bytes of no
    currently connected peer with a port. The > 200 branch (cap + re-sort) remains tied by exact
    correspondence on the unit-level rounds only. *)
-Theorem pex_dropped_exact_partial : forall d d1 a r e,
-  do_peer_exchange d = DpeOk d1 ->
-  N.of_nat (length (sort_entries (current_entries (d_conns d)))) <= Params.c20_max_pex_list ->
-  asc_strict (d_list d) ->
+Theorem pex_dropped_exact_partial : forall fx d d1 a r e,
+  do_peer_exchange fx d = DpeOk d1 ->
+  N.of_nat (length (sort_entries fx (current_entries (d_conns d)))) <= Params.c20_max_pex_list ->
+  asc_strict fx (d_list d) ->
   d_delta d1 = Some (a, r) -> In e r ->
-  In e (d_list d) /\ forall e', In e' (sort_entries (current_entries (d_conns d))) -> ~ same_entry e e'.
+  In e (d_list d) /\ forall e', In e' (sort_entries fx (current_entries (d_conns d))) -> ~ same_entry fx e e'.
 Proof. exact ProofsH.pex_dropped_exact. Qed.
 Print Assumptions pex_dropped_exact_partial.
 
-Theorem pex_list_strict_after_round : forall d d1,
-  do_peer_exchange d = DpeOk d1 ->
-  N.of_nat (length (sort_entries (current_entries (d_conns d)))) <= Params.c20_max_pex_list ->
-  NoDup (map c_peer (d_conns d)) -> asc_strict (d_list d1).
+Theorem pex_list_strict_after_round : forall fx d d1,
+  do_peer_exchange fx d = DpeOk d1 ->
+  N.of_nat (length (sort_entries fx (current_entries (d_conns d)))) <= Params.c20_max_pex_list ->
+  NoDup (map (fun c => key_addr fx (c_peer c)) (d_conns d)) -> asc_strict fx (d_list d1).
 Proof. exact ProofsH.pex_list_strict_after_round. Qed.
 Print Assumptions pex_list_strict_after_round.
